@@ -67,7 +67,7 @@ def mk_utxo(u):
     if u.get('script'):
         kw['script'] = mk_script(u['script'])
     out = TransactionOutput(addr, Value(u['coin'], mk_ma(u['assets'])), post_alonzo=bool(u.get('pa')), **kw)
-    return UTxO(TransactionInput(TransactionId(bytes.fromhex(u['txid'])), u['ix']), out)
+    return wire(UTxO(TransactionInput(TransactionId(bytes.fromhex(u['txid'])), u['ix']), out))
 
 
 class Ctx(ChainContext):
